@@ -298,6 +298,19 @@ func identOf(e ast.Expr) *ast.Ident {
 	}
 }
 
+// hasKnownSize reports whether types.Sizes.Sizeof can be asked about typ.
+// Type parameters have no size, and neither do untyped types (untyped nil,
+// the untyped bool of a comparison): Sizeof panics on both.
+func hasKnownSize(typ types.Type) bool {
+	if isTypeParam(typ) {
+		return false
+	}
+	if basic, ok := typ.(*types.Basic); ok && basic.Info()&types.IsUntyped != 0 {
+		return false
+	}
+	return true
+}
+
 func isTypeParam(typ types.Type) bool {
 	_, ok := typ.(*typeparams.TypeParam)
 	return ok
